@@ -31,6 +31,10 @@ CLAIMED = {
             "Kernel-checked: translation adds v and fixes infinity; rotation(a) is ccw and additive (over R via cos_add/sin_add); rotation(a,axis): R^T R = 1, det R = 1, R a = a, tr R = 1+2c for unit axes and c^2+s^2 = 1; reflection = classical mirror image (2-D, 3-D); from_points maps the frame (every n). Tied by a differential run: exact model matrices vs the implementation (axes in all octants, axis points of any homogeneous scale, oblique mirrors, non-affine frames, from_points_and_conics).",
             NOTE_COMMON + "cos/sin/atan2/norm trusted (few ulp); from_points_and_conics is decided by correspondence only.",
             "DESIGN.md 7/C08"),
+    "C20": ("Lean 4: formulas, tables and branch conditions of det/adjugate/inv/hat_matrix/roots are regenerated from utils/math.py by an ast translator and proved against Mathlib's Matrix.det/adjugate and the cubic identities (ring, field_simp, linear_combination with kernel-checked certificates); correspondence over n=2..5 and batch sizes around the thresholds",
+            "Kernel-checked about the code's own text: det2/Sarrus = Matrix.det, 2x2 gather tables = Matrix.adjugate, slice sign flips = (-1)^(i+j) for all n, thresholds, Laplace model A adj A = det A I (n=2,3,4) and for every n in Mathlib, hat_matrix(x) v = v x x, roots: linear, quadratic (with Vieta), depressed-cubic reduction, Cardano and trigonometric branches all three roots, triple root. Tied additionally by a differential run (int/float/complex, singular matrices, batch 1/2/63/64/65, prescribed roots incl. repeated).",
+            "Trusted: Lean kernel + standard axioms; translator A (tools/extract.py); LAPACK/SVD (null_space, orth and the LAPACK branches of det/inv are decided by correspondence only: exact rank from the model, A Q = 0, orthonormality); cbrt/sqrt/cos/arccos enter the theorems as numbers constrained by their defining identities.",
+            "DESIGN.md 7/C20"),
     "C05": ("Lean 4 proofs about a hand-written model of TensorDiagram/LeviCivita/KroneckerDelta (induction over arbitrary op sequences; sign of permutations for all n via Mathlib) + correspondence (differential, exact integers) of model vs implementation",
             "Machine-checked theorems (Lean 4 kernel) about the executable model of add_node/add_edge/calculate and of the epsilon/delta constructions, for every diagram / every n; the model is tied to /repo's working tree on every run by an in-process differential run on random and exhaustively enumerated edge sequences.",
             "Trusted: Lean kernel + propext/Classical.choice/Quot.sound, numpy.einsum semantics, CPython set order for small ints, the harness and driver parser. delta(n,p) is a complete kernel-evaluated table for p<=n<=4 except p=n=4.",
